@@ -340,10 +340,11 @@ class Monitor:
                 self.bad('C08.blocked-entry', f'{part.name} passed {x.name} at {now} although its input is blocked')
             if isinstance(x, DecisionGate):
                 sp = self.m.specs[x.name]
-                for lf in ([part] if not isinstance(part, Batch) else [part]):
-                    if (part_index(lf) % sp['mod'] == 0) == sp['neg']:
-                        self.bad('C08.gate', f'{part.name} passed gate {x.name} at {now} although its predicate '
-                                 f'rejects it')
+                ok = ((part.quality >= sp['q']) != sp['neg']) if 'q' in sp else ((part_index(part) % sp['mod'] == 0) != sp['neg'])
+                self.c['gate_passes'] = self.c.get('gate_passes', 0) + 1
+                if not ok:
+                    self.bad('C08.gate', f'{part.name} (quality {part.quality}) passed gate {x.name} at {now} although '
+                             f'its predicate rejects it')
             j -= 1
         # idle-longest among parallel single-slot devices
         if j >= 0 and j == len(hist) - 2 and dev.name in self.idle:
@@ -889,6 +890,8 @@ class Monitor:
         for a in self.m.action_log:
             if a[1] == 'rewire_add':
                 down.setdefault(a[3], []).append(a[2])
+        for (frm, to) in spec.get('loops', []):
+            down.setdefault(frm, []).append(to)
         G = {g['n']: g for g in spec.get('groups', [])}
         return kind, down, G
 
@@ -946,10 +949,6 @@ class Monitor:
                     self.bad('C08.route-edge', f'{p.name} went {a} -> {b}, which is not a configured connection for a '
                              f'part that entered groups through {stacks}; history {h} ({now})')
                 stacks = nxt
-            for nm in h:
-                kd = kind[nm]
-                if kd['k'] == 'G' and p.id not in top and (part_index(p) % kd['mod'] == 0) == kd['neg']:
-                    pass
             where = holder.get(p.id)
             if where is not None and h[-1] != where:
                 self.bad('C08.history-tail', f'{p.name} is held by {where} but its routing history ends with {h[-3:]} '
